@@ -193,6 +193,30 @@ Definition d21_here (_ : bool) (x : expr) : bool :=
 Definition known_d21 (sw : switches) (dt : detection) : bool :=
   sw_matrix sw && any_tree d21_here (pre_matrix sw dt).
 
+(* D29 (optimiser.rs:789-801): in an or-group nested blocks on the same field are merged into
+   ONE nested block over the or of their bodies; over an ARRAY of objects a body that is an
+   all()-list has per-member semantics ("each member is satisfied by some element") on its
+   own, but inside the merged or it is evaluated per element ("some element satisfies every
+   member"): a match is lost, with no negation involved *)
+Definition is_allor (e : expr) : bool :=
+  match e with
+  | EMatch MAll (EGroup BOr _) | EMatch MAll (EMatrix _ _) => true
+  | _ => false
+  end.
+Definition d29_here (_ : bool) (x : expr) : bool :=
+  match x with
+  | EGroup BOr l =>
+      let sh := map (fun m => shake1 ord (shake_fuel m) m) l in
+      let nested := flat_map (fun m => match m with ENested f b => [(f, b)] | _ => [] end) sh in
+      existsb (fun p : str * expr =>
+                 is_allor (snd p) &&
+                 (1 <? length (filter (fun q : str * expr => str_eqb (fst q) (fst p)) nested))%nat) nested
+  | _ => false
+  end.
+Definition known_d29 (sw : switches) (dt : detection) : bool :=
+  (sw_shake sw && any_tree d29_here (shaken0 (staged sw dt))) ||
+  (sw_matrix sw && existsb has_match (all_trees (staged sw dt)) && any_tree d29_here (staged sw dt)).
+
 (* the names of the classes that accept (rule, switches) *)
 Definition known_classes (sw : switches) (dt : detection) : list N :=
   (if known_d13 sw dt then [13%N] else []) ++
@@ -201,7 +225,8 @@ Definition known_classes (sw : switches) (dt : detection) : list N :=
   (if known_d16 sw dt then [16%N] else []) ++
   (if known_d17 sw dt then [17%N] else []) ++
   (if known_d18 sw dt then [18%N] else []) ++
-  (if known_d21 sw dt then [21%N] else []).
+  (if known_d21 sw dt then [21%N] else []) ++
+  (if known_d29 sw dt then [29%N] else []).
 
 End Known.
 
